@@ -134,7 +134,9 @@ theorem ack_clause_is_code_test (s : Session) (hs : SInv s) (a : Nat) (ha : a < 
 /-- Non-vacuity: on an established session (window 5, segment size 20, nothing sent yet) a
 stand-alone acknowledgement of the never-sent sequence number 77 is a violation, and so are a data
 segment with sequence number 5 when 0 is expected, a segment with beginning+continue, a
-non-final segment that does not fill the segment size, and a management opcode; a well-formed
+non-final segment that does not fill the segment size, a management opcode, and an empty ENDING
+(or CONTINUE+ENDING) segment with no message in progress (accepted by the code before the fix
+`C18-orphan-ending-segment`: it took a sequence number and a window slot and delivered nothing); a well-formed
 one-segment message is not, and is accepted. -/
 example : ∃ s, (Session.fresh false false).processRx none [0x65, 0x6c, 4, 0, 0, 0, 23, 0, 5] 0 = .ok s ∧
     Spec.mustReject (viewOf s) { ack := true, ackNum := 77, seqNum := 0 } [] = true ∧
@@ -142,10 +144,12 @@ example : ∃ s, (Session.fresh false false).processRx none [0x65, 0x6c, 4, 0, 0
     Spec.mustReject (viewOf s) { beg := true, cont := true, fin := true, msgLen := 1, seqNum := 0 } [7] = true ∧
     Spec.mustReject (viewOf s) { beg := true, msgLen := 40, seqNum := 0 } [7] = true ∧
     Spec.mustReject (viewOf s) { mgmt := true, opcode := 1, beg := true, fin := true, msgLen := 1, seqNum := 0 } [7] = true ∧
+    Spec.mustReject (viewOf s) { fin := true, seqNum := 0 } [] = true ∧
+    Spec.mustReject (viewOf s) { cont := true, fin := true, seqNum := 0 } [] = true ∧
     Spec.mustReject (viewOf s) { beg := true, fin := true, msgLen := 1, seqNum := 0 } [7] = false ∧
     Spec.noRoom (ringFree s.recv.buf) { beg := true, fin := true, msgLen := 1, seqNum := 0 } [7] = false ∧
     (∃ s', s.processRxData { beg := true, fin := true, msgLen := 1, seqNum := 0 } [7] 3 = .ok s') := by
-  exact ⟨_, rfl, by decide, by decide, by decide, by decide, by decide, by decide, by decide, _, rfl⟩
+  exact ⟨_, rfl, by decide, by decide, by decide, by decide, by decide, by decide, by decide, by decide, by decide, _, rfl⟩
 
 /-! ## Window slots and the acknowledgement deadline (session level) -/
 
